@@ -115,7 +115,7 @@ KLess(x, y) == x[1] < y[1] \/ (x[1] = y[1] /\ x[2] < y[2])
 ColKeys(A, B, c) == [i \in 1..Len(A) |-> <<B[i][c], A[i][c]>>]
 
 \* property layer: remove the largest and the smallest, b times; average what is left
-RemoveAt(s, i) == [j \in 1..(Len(s) - 1) |-> IF j < i THEN s[j] ELSE s[j + 1]]
+RemoveAt(s, i) == TLCEval([j \in 1..(Len(s) - 1) |-> IF j < i THEN s[j] ELSE s[j + 1]])
 MaxIdx(s) == CHOOSE i \in DOMAIN s : \A j \in DOMAIN s : ~KLess(s[i], s[j])
 MinIdx(s) == CHOOSE i \in DOMAIN s : \A j \in DOMAIN s : ~KLess(s[j], s[i])
 RECURSIVE Trim(_, _)
@@ -124,17 +124,18 @@ Trim(s, n) == IF n = 0 THEN s
 SumIdx(s, t) == LET F[i \in 0..Len(s)] == IF i = 0 THEN 0 ELSE F[i - 1] + s[i][t] IN F[Len(s)]
 MeanKeys(s)  == [a |-> Frac(SumIdx(s, 2), Len(s)), b |-> Frac(SumIdx(s, 1), Len(s))]
 ColsOf(A) == 1..Len(A[1])
-PropTM(A, B, b) == [c \in ColsOf(A) |-> MeanKeys(Trim(ColKeys(A, B, c), b))]
+PropTM(A, B, b) == TLCEval([c \in ColsOf(A) |-> MeanKeys(Trim(TLCEval(ColKeys(A, B, c)), b))])
 
 \* implementation-shaped layer: sort, narrow(start = b, length = m - 2b), mean  (ranks 1..m)
 RankIn(s, i) == Cardinality({j \in DOMAIN s : KLess(s[j], s[i]) \/ (s[j] = s[i] /\ j < i)}) + 1
 ImplTMCol(s, b) ==
-    LET keep == {i \in DOMAIN s : RankIn(s, i) > b /\ RankIn(s, i) <= Len(s) - b}
+    LET keep == TLCEval({i \in DOMAIN s : RankIn(s, i) > b /\ RankIn(s, i) <= Len(s) - b})
         F[i \in 0..Len(s)] == IF i = 0 THEN <<0, 0>>
-                              ELSE IF i \in keep THEN <<F[i - 1][1] + s[i][1], F[i - 1][2] + s[i][2]>>
-                              ELSE F[i - 1]
-    IN  [a |-> Frac(F[Len(s)][2], Cardinality(keep)), b |-> Frac(F[Len(s)][1], Cardinality(keep))]
-ImplTM(A, B, b) == [c \in ColsOf(A) |-> ImplTMCol(ColKeys(A, B, c), b)]
+                              ELSE LET p == F[i - 1] IN
+                                   IF i \in keep THEN <<p[1] + s[i][1], p[2] + s[i][2]>> ELSE p
+        tot == F[Len(s)]
+    IN  [a |-> Frac(tot[2], Cardinality(keep)), b |-> Frac(tot[1], Cardinality(keep))]
+ImplTM(A, B, b) == TLCEval([c \in ColsOf(A) |-> ImplTMCol(TLCEval(ColKeys(A, B, c)), b)])
 
 \* range of the untouched rows of column c (level-0 integers)
 MinOf(S) == CHOOSE x \in S : \A y \in S : x <= y
@@ -154,7 +155,8 @@ Dist2(A, B, i, j) ==
           IF c = 0 THEN <<0, 0, 0>>
           ELSE LET da == A[i][c] - A[j][c]
                    db == B[i][c] - B[j][c]
-               IN  <<F[c - 1][1] + da * da, F[c - 1][2] + 2 * da * db, F[c - 1][3] + db * db>>
+                   p  == F[c - 1]
+               IN  <<p[1] + da * da, p[2] + 2 * da * db, p[3] + db * db>>
     IN  [A |-> F[Len(A[1])][1], B |-> F[Len(A[1])][2], C |-> F[Len(A[1])][3]]
 DLess(x, y) == x.C < y.C \/ (x.C = y.C /\ (x.B < y.B \/ (x.B = y.B /\ x.A < y.A)))
 
@@ -176,11 +178,12 @@ KrumScores(A, B, f) ==
     LET mm   == Len(A)
         RR   == 1..mm
         ncl  == mm - f - 2
-        D    == [i \in RR |-> [j \in RR |-> Dist2(A, B, i, j)]]
+        \* TLCEval: TLC keeps [x \in S |-> e] as a closure and re-evaluates e at every application
+        D    == TLCEval([i \in RR |-> TLCEval([j \in RR |-> Dist2(A, B, i, j)])])
         \* position of j among the other rows of i, by distance (ties by index: equal distances
         \* contribute equal amounts, so the choice among them does not change the score)
         Pos(i, j) == Cardinality({l \in RR \ {i} : DLess(D[i][l], D[i][j]) \/ (D[i][l] = D[i][j] /\ l < j)})
-        Near == [i \in RR |-> {j \in RR \ {i} : Pos(i, j) < ncl}]
+        Near == TLCEval([i \in RR |-> TLCEval({j \in RR \ {i} : Pos(i, j) < ncl})])
         maxA == MaxOf({0} \cup {D[i][j].A : i \in RR, j \in RR})
         q    == QOf(maxA)
         Sum(i, Fn(_)) == LET js == Near[i]
@@ -193,8 +196,8 @@ KrumScores(A, B, f) ==
         L0hi(d) == IF d.C = 0 THEN SqHi(d.A, q) ELSE 0
         W(d)    == AbsI(d.B) + d.A
         N1(d)   == IF d.C > 0 THEN 1 ELSE 0
-    IN  [i \in RR |-> [l1lo |-> Sum(i, L1lo), l1hi |-> Sum(i, L1hi), l0lo |-> Sum(i, L0lo),
-                       l0hi |-> Sum(i, L0hi), w |-> Sum(i, W), n1 |-> Sum(i, N1), near |-> Near[i]]]
+    IN  TLCEval([i \in RR |-> [l1lo |-> Sum(i, L1lo), l1hi |-> Sum(i, L1hi), l0lo |-> Sum(i, L0lo),
+                               l0hi |-> Sum(i, L0hi), w |-> Sum(i, W), n1 |-> Sum(i, N1), near |-> Near[i]]])
 
 \* score si is DEFINITELY smaller than score sj.
 \* (1) the S-parts are separated by >= S/1000 while everything else is bounded by w:
@@ -203,7 +206,7 @@ KrumScores(A, B, f) ==
 Below(si, sj) == \/ (si.l1hi < sj.l1lo /\ si.w + sj.w < SOver1000)
                  \/ (si.n1 = 0 /\ sj.n1 = 0 /\ si.l0hi < sj.l0lo)
 
-BelowRel(sc) == {p \in (DOMAIN sc) \X (DOMAIN sc) : Below(sc[p[1]], sc[p[2]])}
+BelowRel(sc) == TLCEval({p \in (DOMAIN sc) \X (DOMAIN sc) : Below(sc[p[1]], sc[p[2]])})
 
 \* property layer: T may be the selected set iff it has k rows and no row outside is definitely
 \* better than a row inside
@@ -219,9 +222,10 @@ MayIn(rel, RR, k)  == {i \in RR : Cardinality({j \in RR : <<j, i>> \in rel}) < k
 RowAvg(A, B, T) ==
     [c \in ColsOf(A) |->
        LET F[i \in 0..Len(A)] == IF i = 0 THEN <<0, 0>>
-                                 ELSE IF i \in T THEN <<F[i - 1][1] + A[i][c], F[i - 1][2] + B[i][c]>>
-                                 ELSE F[i - 1]
-       IN  [a |-> Frac(F[Len(A)][1], Cardinality(T)), b |-> Frac(F[Len(A)][2], Cardinality(T))]]
+                                 ELSE LET p == F[i - 1] IN
+                                      IF i \in T THEN <<p[1] + A[i][c], p[2] + B[i][c]>> ELSE p
+           tot == F[Len(A)]
+       IN  [a |-> Frac(tot[1], Cardinality(T)), b |-> Frac(tot[2], Cardinality(T))]]
 
 HugeRows(B) == {i \in 1..Len(B) : \E c \in 1..Len(B[i]) : B[i][c] # 0}
 
@@ -241,26 +245,40 @@ TMImplIsProp == (kind = "tm" /\ status = "ok") => ImplTM(JA, JB, par) = PropTM(J
 \* ... and up to b arbitrary rows keep every coordinate within the range of the untouched rows
 TMRobust == (kind = "tm" /\ status = "ok") => InHonestRange(PropTM(JA, JB, par), JA, corrupt)
 
-\* Krum: for every admissible k some selection is allowed, every row that must be selected may
-\* be, and exactly-decidable instances have a single selection
-KrumWellDefined ==
-    (kind = "krum" /\ status = "ok") =>
-        LET rel == BelowRel(KrumScores(JA, JB, par)) IN
-        \A k \in 1..m : LET sels == KrumSelections(rel, Rows, k) IN
-                        /\ sels # {}
-                        /\ \A T \in sels : MustIn(rel, Rows, k) \subseteq T /\ T \subseteq MayIn(rel, Rows, k)
-                        /\ (Cardinality(MustIn(rel, Rows, k)) = k => sels = {MustIn(rel, Rows, k)})
+\* Krum: everything the clauses below need, computed once per state
+KrumAll(A, B, f) ==
+    LET sc  == KrumScores(A, B, f)
+        rel == BelowRel(sc)
+        RR  == 1..Len(A)
+    IN  [sc |-> sc, rel |-> rel,
+         sels |-> TLCEval([k \in RR |-> TLCEval(KrumSelections(rel, RR, k))])]
+
+\* for every admissible k some selection is allowed, every row that must be selected may be, and
+\* exactly-decidable instances have a single selection
+KrumWellDefinedOn(ka, RR) ==
+    \A k \in RR : LET sels == ka.sels[k] IN
+                   /\ sels # {}
+                   /\ \A T \in sels : MustIn(ka.rel, RR, k) \subseteq T /\ T \subseteq MayIn(ka.rel, RR, k)
+                   /\ (Cardinality(MustIn(ka.rel, RR, k)) = k => sels = {MustIn(ka.rel, RR, k)})
 \* rows that are huge in some coordinate are never selected while enough other rows exist and
 \* the neighbourhood is larger than the group of huge rows (m - f - 2 >= number of huge rows)
-KrumIgnoresFarRows ==
-    (kind = "krum" /\ status = "ok") =>
-        LET rel  == BelowRel(KrumScores(JA, JB, par))
-            huge == HugeRows(JB)
-        IN  (m - par - 2 >= Cardinality(huge)) =>
-               \A k \in 1..(m - Cardinality(huge)) : \A T \in KrumSelections(rel, Rows, k) : T \cap huge = {}
+KrumIgnoresFarRowsOn(ka, B, f) ==
+    LET mm == Len(B)
+        huge == HugeRows(B)
+    IN  (mm - f - 2 >= Cardinality(huge)) =>
+           \A k \in 1..(mm - Cardinality(huge)) : \A T \in ka.sels[k] : T \cap huge = {}
 \* enclosure arithmetic stays far below the 32-bit limit / the S/1000 separation
-SlackOK == (kind = "krum" /\ status = "ok") =>
-              \A i \in Rows : KrumScores(JA, JB, par)[i].w < 100000000
+SlackOKOn(ka) == \A i \in DOMAIN ka.sc : ka.sc[i].w < 100000000
+
+KrumChecks == (kind = "krum" /\ status = "ok") =>
+                 LET ka == KrumAll(JA, JB, par) IN
+                 /\ KrumWellDefinedOn(ka, Rows)
+                 /\ KrumIgnoresFarRowsOn(ka, JB, par)
+                 /\ SlackOKOn(ka)
+\* the three clauses separately (used to name the failing one when KrumChecks is violated)
+KrumWellDefined    == (kind = "krum" /\ status = "ok") => KrumWellDefinedOn(KrumAll(JA, JB, par), Rows)
+KrumIgnoresFarRows == (kind = "krum" /\ status = "ok") => KrumIgnoresFarRowsOn(KrumAll(JA, JB, par), JB, par)
+SlackOK            == (kind = "krum" /\ status = "ok") => SlackOKOn(KrumAll(JA, JB, par))
 
 -----------------------------------------------------------------------------
 (* Scenario export: every reachable (J, parameter), with the expected results             *)
@@ -275,11 +293,10 @@ SetsToSeq(SS) == LET RECURSIVE G(_)
 KrumCases(A, B, f) ==
     LET mm  == Len(A)
         ok  == mm >= f + 3
-        rel == IF ok THEN BelowRel(KrumScores(A, B, f)) ELSE {}
+        ka  == IF ok THEN KrumAll(A, B, f) ELSE <<>>
     IN  [k \in 1..(mm + 1) |->
            IF ok /\ k <= mm
-           THEN [k |-> k, status |-> "ok",
-                 allowed |-> SetsToSeq(KrumSelections(rel, 1..mm, k))]
+           THEN [k |-> k, status |-> "ok", allowed |-> SetsToSeq(ka.sels[k])]
            ELSE [k |-> k, status |-> "reject", allowed |-> <<>>]]
 
 Scenario ==
